@@ -109,6 +109,9 @@ func stepRequest(t *rapid.T, o GenOpts, target string, maxPrefix int) GenReq {
 	bs = append(bs, M{"name": target, "props": s.genBiasProps(target, req)}, M{"name": probeName})
 	req["biases"] = bs
 	req["biasApplyRandomSeed"] = g.Seed()
+	if dropSeeds(g, req) > 0 {
+		s.label("seedAbsent")
+	}
 	return GenReq{Req: req, Labels: s.labels}
 }
 
@@ -166,7 +169,7 @@ func judgeC16(c ReqCase) *Fail {
 				mn, mx = rc.Min, rc.Max // "the criterion's declared range": what the request declares
 			}
 			want := mx + mn - old
-			scale := math.Max(1, math.Max(math.Abs(mx), math.Max(math.Abs(mn), math.Abs(old))))
+			scale := math.Max(math.Abs(mx), math.Max(math.Abs(mn), math.Abs(old))) // relative to the data: no absolute floor
 			if math.Abs(nw-want) > 1e-9*scale {
 				return failf("mirror-in-range", "(%s,%s): %v became %v, max+min-v with range [%v,%v] is %v", a.Id, cv.Id, old, nw, mn, mx, want)
 			}
@@ -189,7 +192,7 @@ func judgeC16(c ReqCase) *Fail {
 		if cv := x.before.crit(id); !cv.HasRange {
 			b0, b1 := x.before.rangeOf(id)
 			a0, a1 := x.after.rangeOf(id)
-			sc := math.Max(1, math.Max(math.Abs(b0), math.Abs(b1)))
+			sc := math.Max(math.Abs(b0), math.Abs(b1))
 			if math.Abs(a0-b0) > 1e-9*sc || math.Abs(a1-b1) > 1e-9*sc {
 				return failf("range-preserved", "criterion %s: observed range [%v,%v] became [%v,%v]", id, b0, b1, a0, a1)
 			}
@@ -224,7 +227,7 @@ func judgeC16(c ReqCase) *Fail {
 }
 
 func genC16(t *rapid.T) ReqCase {
-	return mkReqCase(stepRequest(t, GenOpts{ValueMode: -1, BigTiers: true}, "preferenceReversal", 2))
+	return mkReqCase(stepRequest(t, GenOpts{ValueMode: -1, BigTiers: true, ValueScales: true}, "preferenceReversal", 2))
 }
 
 // double reversal of the same criteria restores the data
@@ -247,7 +250,7 @@ func judgeC16Twice(c ReqCase) *Fail {
 	for _, alt := range s0.all() {
 		for id, old := range alt.Vals {
 			nw := s2.alt(alt.Id).Vals[id]
-			sc := math.Max(1, math.Abs(old))
+			sc := math.Abs(old)
 			mn, mx := s0.rangeOf(id)
 			sc = math.Max(sc, math.Max(math.Abs(mn), math.Abs(mx)))
 			if math.Abs(nw-old) > 1e-9*sc {
@@ -371,7 +374,7 @@ func judgeC17(c ReqCase) *Fail {
 			d := math.Abs(fr * v)
 			lo, hi := x.before.rangeOf(cv.Id)
 			B := boundFn(x.props, lo, hi)
-			slack := 1e-12*math.Max(1, math.Abs(v)+d) + 1e-12*math.Max(math.Abs(lo), math.Abs(hi))
+			slack := 1e-12*(math.Abs(v)+d) + 1e-12*math.Max(math.Abs(lo), math.Abs(hi)) // relative to the data: no absolute floor
 			if nv < B(v-d)-slack || nv > B(v+d)+slack {
 				return failf("blur-within-ratio", "(%s,%s): %v became %v; f=%v allows [%v,%v] after bounding (range [%v,%v], props %v)", a.Id, cv.Id, v, nv, fr, B(v-d), B(v+d), lo, hi, x.props)
 			}
@@ -459,7 +462,7 @@ func judgeC17Agg(c AggCase) *Fail {
 }
 
 func genC17(t *rapid.T) ReqCase {
-	return mkReqCase(stepRequest(t, GenOpts{ValueMode: -1, BigTiers: true}, "fatigue", 2))
+	return mkReqCase(stepRequest(t, GenOpts{ValueMode: -1, BigTiers: true, ValueScales: true}, "fatigue", 2))
 }
 
 func init() {
